@@ -88,7 +88,10 @@ func (ctx *IntermediateMetricContext) MakePlan() error {
 		return constants.ErrDatabaseNotExist
 	}
 
-	calcTimeRangeAndInterval(ctx.statement, databaseCfg)
+	if ctx.statement.StorageInterval <= 0 {
+		// the root has planned time range/interval already, planning the truncated range again may pick another interval
+		calcTimeRangeAndInterval(ctx.statement, databaseCfg)
+	}
 
 	payload, _ := ctx.statement.MarshalJSON()
 	for _, physicalPlan := range physicalPlans {
